@@ -7,9 +7,11 @@
 package wdsim
 
 import (
+	"encoding/base64"
 	"encoding/json"
 	"fmt"
 	"strings"
+	"unicode/utf8"
 )
 
 // Fault is one injected fault, addressed to a seam call inside a step.
@@ -67,11 +69,41 @@ func (s *Step) Header(name string) (string, bool) {
 	return "", false
 }
 
+// BStr is a string that may hold bytes that are not valid UTF-8 (file names
+// are byte strings). encoding/json would replace those bytes by U+FFFD, making
+// two different names equal; such values travel as base64.
+type BStr string
+
+func (b BStr) MarshalJSON() ([]byte, error) {
+	s := string(b)
+	if utf8.ValidString(s) && !strings.HasPrefix(s, "~b64:") {
+		return json.Marshal(s)
+	}
+	return json.Marshal("~b64:" + base64.StdEncoding.EncodeToString([]byte(s)))
+}
+
+func (b *BStr) UnmarshalJSON(data []byte) error {
+	var s string
+	if err := json.Unmarshal(data, &s); err != nil {
+		return err
+	}
+	if strings.HasPrefix(s, "~b64:") {
+		raw, err := base64.StdEncoding.DecodeString(s[5:])
+		if err != nil {
+			return err
+		}
+		s = string(raw)
+	}
+	*b = BStr(s)
+	return nil
+}
+
 // SetupOp builds the initial tree directly on the store before the history.
 type SetupOp struct {
 	Mkcol string `json:"mkcol,omitempty"`
 	Put   string `json:"put,omitempty"`
 	Data  []byte `json:"data,omitempty"`
+	MTime string `json:"mtime,omitempty"` // "" = the fake clock's now | "epoch" | "ancient" | "future" | "odd-ns"
 }
 
 // Config is the swarm configuration of a run.
@@ -86,11 +118,13 @@ type Config struct {
 	Clients   int    `json:"clients"`    // number of caller nodes
 	MemfsSeed uint64 `json:"memfs_seed"` // metadata seed for the in-memory store
 
-	Host      string `json:"host,omitempty"`      // Host header of raw requests (default dav.test)
-	RootForm  string `json:"root_form,omitempty"` // how the served directory is spelled in the configuration: "" clean | "slash" | "dot" | "double"
-	Server    string `json:"server,omitempty"`    // "" (file server on Store) | caldav | carddav | webdav-mem | webdav-local | principal
-	Prefix    string `json:"prefix,omitempty"`    // mount prefix of the CalDAV/CardDAV handler
-	WorldSeed uint64 `json:"world_seed,omitempty"`
+	Host        string `json:"host,omitempty"`          // Host header of raw requests (default dav.test)
+	RootForm    string `json:"root_form,omitempty"`     // how the served directory is spelled in the configuration: "" clean | "slash" | "dot" | "double"
+	ZoneOffsetS int    `json:"zone_offset_s,omitempty"` // local time zone of the server process (seconds east of UTC)
+	Neighbour   bool   `json:"neighbour,omitempty"`     // a second LocalFileSystem with another root serves the same names in between
+	Server      string `json:"server,omitempty"`        // "" (file server on Store) | caldav | carddav | webdav-mem | webdav-local | principal
+	Prefix      string `json:"prefix,omitempty"`        // mount prefix of the CalDAV/CardDAV handler
+	WorldSeed   uint64 `json:"world_seed,omitempty"`
 }
 
 // Plan is everything a run does. It is pure data: executing the same plan
@@ -152,4 +186,49 @@ type DavCall struct {
 	N      int      `json:"n,omitempty"`
 	Token  string   `json:"token,omitempty"`
 	Data   []byte   `json:"data,omitempty"`
+}
+
+// SetupOp and APICall carry names that are byte strings: they are (un)marshalled
+// through shadow types whose name fields are BStr.
+
+type setupOpJSON struct {
+	Mkcol BStr   `json:"mkcol,omitempty"`
+	Put   BStr   `json:"put,omitempty"`
+	Data  []byte `json:"data,omitempty"`
+	MTime string `json:"mtime,omitempty"`
+}
+
+func (s SetupOp) MarshalJSON() ([]byte, error) {
+	return json.Marshal(setupOpJSON{BStr(s.Mkcol), BStr(s.Put), s.Data, s.MTime})
+}
+
+func (s *SetupOp) UnmarshalJSON(b []byte) error {
+	var j setupOpJSON
+	if err := json.Unmarshal(b, &j); err != nil {
+		return err
+	}
+	*s = SetupOp{Mkcol: string(j.Mkcol), Put: string(j.Put), Data: j.Data, MTime: j.MTime}
+	return nil
+}
+
+type apiCallShadow APICall
+
+type apiCallJSON struct {
+	apiCallShadow
+	Name BStr `json:"name"`
+	Dest BStr `json:"dest,omitempty"`
+}
+
+func (a APICall) MarshalJSON() ([]byte, error) {
+	return json.Marshal(apiCallJSON{apiCallShadow: apiCallShadow(a), Name: BStr(a.Name), Dest: BStr(a.Dest)})
+}
+
+func (a *APICall) UnmarshalJSON(b []byte) error {
+	var j apiCallJSON
+	if err := json.Unmarshal(b, &j); err != nil {
+		return err
+	}
+	*a = APICall(j.apiCallShadow)
+	a.Name, a.Dest = string(j.Name), string(j.Dest)
+	return nil
 }
